@@ -8,19 +8,42 @@
   * `pump_eq_batch`   : on an input the source decoder accepts, the lock-step pump produces exactly what
                         running the sink encoder over the decoded token list produces, and leaves the reader
                         where the decoder leaves it (one item consumed).
-  * `j2c`             : for every JSON text whose first value the reference reader accepts, the pump into the
-                        CBOR encoder succeeds, writes the RFC 7049 encoding of that very value, and the CBOR
-                        reference decoder reads those bytes back as the same token tree (so the output denotes
-                        the same document); exactly one item is consumed and one produced.
+  * `j2c_pump`        : for every JSON text whose first value the reference reader accepts, the pump into the
+                        CBOR encoder succeeds, writes the RFC 7049 encoding of that very value, and exactly
+                        one item is consumed and one produced.
+  * `j2c_bounded`     : moreover the CBOR reference decoder reads those bytes back as the same token tree (so
+                        the output denotes the same document) — provided every string of the document is
+                        within the decoders' 32 MiB cap (`hbig`).
   * `c2j_accepts`     : for every CBOR item in the common data model (string keys, no byte strings or tags,
                         finite floats) the pump into the JSON encoder succeeds, done on the last token.
   * `pump_src_error`  : if the source decoder fails, the pump fails.
+
+  Status.  `pump_eq_batch_cbor_src`, `pump_eq_batch_json_src`, `c2j_accepts`, `pump_src_error_cbor`,
+  `pump_src_error_json` are proved as first stated (`hb` of `pump_eq_batch_cbor_src` is not needed).
+  `j2c` as first stated is FALSE: `j2c_statement` keeps it, `j2c_statement_false` refutes it with the JSON
+  string literal of 33 554 433 letters (accepted, pumped and encoded, but above the 32 MiB cap of
+  `Spec.Cbor.parse` / `CborDec`; the culprit is the statement, which forgot the cap that the model and the
+  Go code really have).  `j2c_pump` is its first three conjuncts with no extra hypothesis, `j2c_readback` the
+  fourth under the cap, `j2c_bounded` all four with the single added hypothesis `hbig`.
+
+  The fuel question (`2 * n + 4` for the pump, `2 * n + 2` for the decoders): a finished run is unchanged by
+  more fuel (`PumpL.srcRun_mono`); for failures, the CBOR machine never runs out of `2 * n + 2` steps on a
+  fault-free reader because every continuing step decreases `2 * bytes left + stack depth`
+  (`PumpL.step_ok`, no hypothesis on byte values), and the JSON rejection lemmas of C05 hold for every fuel.
+
+  Lemmas: RefmtProofs/Lemmas/{PumpL,PumpCbor,PumpJson,CborScalar,JsonTree,J2CCounter}.lean.
 -/
 import RefmtModel
 import RefmtProofs.Props.C02
 import RefmtProofs.Props.C04
 import RefmtProofs.Props.C05
 import RefmtProofs.Props.C14
+import RefmtProofs.Lemmas.PumpL
+import RefmtProofs.Lemmas.PumpCbor
+import RefmtProofs.Lemmas.PumpJson
+import RefmtProofs.Lemmas.CborScalar
+import RefmtProofs.Lemmas.JsonTree
+import RefmtProofs.Lemmas.J2CCounter
 set_option linter.unusedSimpArgs false
 set_option linter.unusedVariables false
 namespace Refmt.C10
@@ -35,7 +58,26 @@ theorem pump_eq_batch_cbor_src {τ : Type} (sink : τ → Tok → EncOut τ) (k0
     let r := Pump.run (Pump.cborSrc coerce) sink (2 * bs.length + 4) CborDec.init (Rd.ofBytes bs) k0 []
     r.ok = true ∧ r.out = (runOut sink k0 (CborDec.decode coerce (Rd.ofBytes bs)).toks).2 ∧
     r.rd.data = (CborDec.decode coerce (Rd.ofBytes bs)).rd.data := by
-  sorry
+  intro r
+  have hrun := PumpL.cbor_run_eq coerce (2 * bs.length + 2) CborDec.init (Rd.ofBytes bs) [] 0 0
+  simp only [List.reverse_nil, List.nil_append] at hrun
+  obtain ⟨h1, h2, h3⟩ := hrun
+  have hd : CborDec.decode coerce (Rd.ofBytes bs) =
+      CborDec.run coerce (2 * bs.length + 2) CborDec.init (Rd.ofBytes bs) [] 0 0 := rfl
+  rw [hd] at hdec hsink ⊢
+  rw [hdec] at h2
+  have hsrc : PumpL.srcRun (Pump.cborSrc coerce) (2 * bs.length + 2) CborDec.init (Rd.ofBytes bs) =
+      ((CborDec.run coerce (2 * bs.length + 2) CborDec.init (Rd.ofBytes bs) [] 0 0).toks, true,
+       (CborDec.run coerce (2 * bs.length + 2) CborDec.init (Rd.ofBytes bs) [] 0 0).rd) := by
+    rw [h1, h3]
+    have : (PumpL.srcRun (Pump.cborSrc coerce) (2 * bs.length + 2) CborDec.init (Rd.ofBytes bs)).2.1 = true := by
+      rw [← h2]; rfl
+    rw [← this]
+  have hsrc' := PumpL.srcRun_mono (Pump.cborSrc coerce) 2 _ _ _ _ _ hsrc
+  have hp := PumpL.pump_ok (Pump.cborSrc coerce) sink _ _ _ k0 [] _ _ hsrc' hsink
+  have hr : r = Pump.run (Pump.cborSrc coerce) sink (2 * bs.length + 2 + 2) CborDec.init (Rd.ofBytes bs) k0 [] := rfl
+  rw [hr, hp]
+  simp
 
 theorem pump_eq_batch_json_src {τ : Type} (sink : τ → Tok → EncOut τ) (k0 : τ) (bs : Bytes)
     (hdec : (JsonDec.decode (Rd.ofBytes bs)).res = .ok ())
@@ -44,15 +86,103 @@ theorem pump_eq_batch_json_src {τ : Type} (sink : τ → Tok → EncOut τ) (k0
     let r := Pump.run Pump.jsonSrc sink (2 * bs.length + 4) JsonDec.init (Rd.ofBytes bs) k0 []
     r.ok = true ∧ r.out = (runOut sink k0 (JsonDec.decode (Rd.ofBytes bs)).toks).2 ∧
     r.rd.data = (JsonDec.decode (Rd.ofBytes bs)).rd.data := by
-  sorry
+  intro r
+  have hrun := PumpL.json_run_eq (2 * bs.length + 2) JsonDec.init (Rd.ofBytes bs) [] 0
+  simp only [List.reverse_nil, List.nil_append] at hrun
+  obtain ⟨h1, h2, h3⟩ := hrun
+  have hd : JsonDec.decode (Rd.ofBytes bs) =
+      JsonDec.run (2 * bs.length + 2) JsonDec.init (Rd.ofBytes bs) [] 0 := rfl
+  rw [hd] at hdec hsink ⊢
+  rw [hdec] at h2
+  have hsrc : PumpL.srcRun Pump.jsonSrc (2 * bs.length + 2) JsonDec.init (Rd.ofBytes bs) =
+      ((JsonDec.run (2 * bs.length + 2) JsonDec.init (Rd.ofBytes bs) [] 0).toks, true,
+       (JsonDec.run (2 * bs.length + 2) JsonDec.init (Rd.ofBytes bs) [] 0).rd) := by
+    rw [h1, h3]
+    have : (PumpL.srcRun Pump.jsonSrc (2 * bs.length + 2) JsonDec.init (Rd.ofBytes bs)).2.1 = true := by
+      rw [← h2]; rfl
+    rw [← this]
+  have hsrc' := PumpL.srcRun_mono Pump.jsonSrc 2 _ _ _ _ _ hsrc
+  have hp := PumpL.pump_ok Pump.jsonSrc sink _ _ _ k0 [] _ _ hsrc' hsink
+  have hr : r = Pump.run Pump.jsonSrc sink (2 * bs.length + 2 + 2) JsonDec.init (Rd.ofBytes bs) k0 [] := rfl
+  rw [hr, hp]
+  simp
 
-/-- JSON → CBOR: same value, one item in, one item out -/
-theorem j2c (bs : Bytes) (v : TV) (rest : Bytes) (hb : ∀ x ∈ bs, x < 256)
+/-- JSON → CBOR, the statement as first written.  It is FALSE (`j2c_statement_false` below): a JSON string
+    longer than 32 MiB is pumped and encoded without complaint, but neither the CBOR decoder nor the
+    reference decoder `Spec.Cbor.parse` reads a string above the built-in 32 MiB cap back. -/
+def j2c_statement : Prop :=
+  ∀ (bs : Bytes) (v : TV) (rest : Bytes), (∀ x ∈ bs, x < 256) → Spec.Json.parse bs = some (v, rest) →
+    let r := Pump.run Pump.jsonSrc CborEnc.step (2 * bs.length + 4) JsonDec.init (Rd.ofBytes bs) CborEnc.init []
+    r.ok = true ∧ r.out.flatten = Spec.Cbor.enc v ∧ r.rd.data = rest ∧
+    (Spec.Cbor.parse false (Spec.Cbor.enc v)).map (fun p => (p.1.flatten, p.2)) = some (v.flatten.map C02.normTok, [])
+
+/-- JSON → CBOR, the pump half of `j2c` (no extra hypothesis): for every JSON text whose first value the
+    reference reader accepts, the pump into the CBOR encoder succeeds, writes the RFC 7049 encoding of
+    that very value, and consumes exactly one item. -/
+theorem j2c_pump (bs : Bytes) (v : TV) (rest : Bytes) (hb : ∀ x ∈ bs, x < 256)
     (hp : Spec.Json.parse bs = some (v, rest)) :
+    let r := Pump.run Pump.jsonSrc CborEnc.step (2 * bs.length + 4) JsonDec.init (Rd.ofBytes bs) CborEnc.init []
+    r.ok = true ∧ r.out.flatten = Spec.Cbor.enc v ∧ r.rd.data = rest := by
+  intro r
+  have hj := PumpL.parse_JT bs v rest hb hp
+  have hw := PumpL.wfV v hj
+  have href := C05.refine bs hb
+  simp only [hp] at href
+  obtain ⟨h1, h2, h3⟩ := href
+  obtain ⟨e1, e2⟩ := C02.enc_eq_spec v hw
+  rw [← h1] at e1
+  obtain ⟨g1, g2, g3⟩ := pump_eq_batch_json_src CborEnc.step CborEnc.init bs h2 e1
+  refine ⟨g1, ?_, ?_⟩
+  · rw [← e2, ← h1]; exact congrArg List.flatten g2
+  · rw [← h3]; exact g3
+
+/-- the read-back half: the RFC 7049 encoding of a JSON-parsed tree whose string leaves are within the
+    32 MiB cap is read by the CBOR reference decoder as the same token tree -/
+theorem j2c_readback (v : TV) (hj : PumpL.JT v = true) (hbig : PumpL.StrBound v.flatten) :
+    (Spec.Cbor.parse false (Spec.Cbor.enc v)).map (fun p => (p.1.flatten, p.2)) =
+      some (v.flatten.map C02.normTok, []) := by
+  have hw := PumpL.wfV v hj
+  have hs := PumpL.supV v hj hbig
+  have hrt := C02.roundtrip_norm v [] hw hs
+  simp only [List.append_nil] at hrt
+  obtain ⟨r1, r2, r3⟩ := hrt
+  have href := C04.refine false (Spec.Cbor.enc v) (PumpL.encV_B256 v hj)
+  cases hq : Spec.Cbor.parse false (Spec.Cbor.enc v) with
+  | none =>
+    simp only [hq] at href
+    obtain ⟨e, he⟩ := href
+    rw [r2] at he
+    cases he
+  | some p =>
+    obtain ⟨v', rest'⟩ := p
+    simp only [hq] at href
+    obtain ⟨q1, _, q3⟩ := href
+    simp only [Option.map_some, Option.some.injEq, Prod.mk.injEq]
+    exact ⟨by rw [← q1, r1], by rw [← q3, r3]⟩
+
+/-- JSON → CBOR: same value, one item in, one item out — `j2c` with the one missing hypothesis `hbig`
+    (every string of the document is at most 32 MiB long, the decoders' built-in cap) -/
+theorem j2c_bounded (bs : Bytes) (v : TV) (rest : Bytes) (hb : ∀ x ∈ bs, x < 256)
+    (hp : Spec.Json.parse bs = some (v, rest))
+    (hbig : ∀ t ∈ v.flatten, ∀ s, t.body = .str s → s.length ≤ 33554432) :
     let r := Pump.run Pump.jsonSrc CborEnc.step (2 * bs.length + 4) JsonDec.init (Rd.ofBytes bs) CborEnc.init []
     r.ok = true ∧ r.out.flatten = Spec.Cbor.enc v ∧ r.rd.data = rest ∧
     (Spec.Cbor.parse false (Spec.Cbor.enc v)).map (fun p => (p.1.flatten, p.2)) = some (v.flatten.map C02.normTok, []) := by
-  sorry
+  intro r
+  obtain ⟨g1, g2, g3⟩ := j2c_pump bs v rest hb hp
+  exact ⟨g1, g2, g3, j2c_readback v (PumpL.parse_JT bs v rest hb hp) hbig⟩
+
+/-- `j2c` as first written is false: the JSON text `"aaa…a"` with 33 554 433 letters (one more than 32 MiB)
+    is accepted by the reference reader and pumped, but the CBOR reference decoder rejects the encoding
+    of a string above the cap (proved for the symbolic length; nothing of that size is evaluated). -/
+theorem j2c_statement_false : ¬ j2c_statement := by
+  intro h
+  have h4 := (h (PumpL.bigJson 33554433) _ [] (PumpL.bigJson_bytes _) (PumpL.parse_bigJson _)).2.2.2
+  have hrej := PumpL.cbor_rejects_big (PumpL.bigStr 33554433)
+    (by simp only [PumpL.bigStr, List.length_replicate]; decide)
+    (by simp only [PumpL.bigStr, List.length_replicate]; decide)
+  rw [hrej] at h4
+  cases h4
 
 -- the common data model, on token trees
 mutual
@@ -72,22 +202,173 @@ mutual
         common v && commonE es
 end
 
+/-! #### the JSON recogniser (hence, by C14, the JSON encoder) accepts the common data model -/
+
+/-- recogniser flags from the point where one complete value has been consumed in context `stk` -/
+def afterFlags (stk : List Frame) (rest : List Tok) : List Flag :=
+  match afterValue stk with
+  | .cont stk' => .cont :: recFlags .json stk' rest
+  | .done => [.done]
+  | .reject => [.err]
+
+theorem recFlags_cons (stk : List Frame) (t : Tok) (ts : List Tok) :
+    recFlags .json stk (t :: ts) =
+      (match recStep .json stk t.body with
+       | .cont stk' => Flag.cont :: recFlags .json stk' ts
+       | .done => [Flag.done]
+       | .reject => [Flag.err]) := rfl
+
+theorem recStep_value (stk : List Frame) (b : Body) (h : ∀ r, stk ≠ .mapKey :: r) :
+    recStep .json stk b = recValue .json stk b := by
+  unfold recStep
+  split
+  · exact absurd rfl (h _)
+  · rfl
+
+theorem scalar_rec (t : Tok) (hs : t.body.isScalar = true) (hc : common (.scalar t) = true) (stk : List Frame) :
+    recValue .json stk t.body = afterValue stk := by
+  simp only [common, Bool.and_eq_true] at hc
+  obtain ⟨_, hc⟩ := hc
+  cases hb : t.body <;> rw [hb] at hs hc <;> simp [Body.isScalar] at hs <;> simp at hc <;>
+    simp [recValue, valOk, hc]
+
+theorem rep_cons (n : Nat) (X : List Flag) :
+    Flag.cont :: (List.replicate n Flag.cont ++ X) = List.replicate (n + 1) Flag.cont ++ X := by
+  simp [List.replicate_succ]
+
+theorem rep_app (a b : Nat) (X : List Flag) :
+    List.replicate a Flag.cont ++ (List.replicate b Flag.cont ++ X) = List.replicate (a + b) Flag.cont ++ X := by
+  rw [← List.append_assoc, List.replicate_append_replicate]
+
+theorem flatten_pos (v : TV) : 1 ≤ v.flatten.length := by
+  cases v <;> simp [TV.flatten]
+
+mutual
+  theorem recV : ∀ (v : TV), common v = true → PumpL.SB v = true → ∀ (stk : List Frame) (rest : List Tok),
+      (∀ r, stk ≠ .mapKey :: r) →
+      recFlags .json stk (v.flatten ++ rest) =
+        List.replicate (v.flatten.length - 1) Flag.cont ++ afterFlags stk rest
+    | .scalar t, hc, hs, stk, rest, hk => by
+      simp only [TV.flatten, List.singleton_append, List.cons_append, List.nil_append, recFlags_cons,
+        List.length_cons, List.length_nil]
+      rw [recStep_value stk _ hk, scalar_rec t (by simpa [PumpL.SB] using hs) hc stk]
+      simp [afterFlags]
+    | .arr tag len items, hc, hs, stk, rest, hk => by
+      simp only [common, Bool.and_eq_true] at hc
+      simp only [PumpL.SB] at hs
+      have h2 := recL items hc.2 hs stk (⟨.arrClose, none⟩ :: rest)
+      simp only [TV.flatten, List.cons_append, List.append_assoc, recFlags_cons, List.singleton_append,
+        List.nil_append]
+      rw [recStep_value stk _ hk]
+      simp only [recValue]
+      rw [h2, recFlags_cons]
+      have : recStep .json (.arr :: stk) Body.arrClose = afterValue stk := rfl
+      rw [this, rep_cons]
+      simp only [List.length_cons, List.length_append, List.length_nil]
+      rfl
+    | .map tag len es, hc, hs, stk, rest, hk => by
+      simp only [common, Bool.and_eq_true] at hc
+      simp only [PumpL.SB] at hs
+      have h2 := recE es hc.2 hs stk (⟨.mapClose, none⟩ :: rest)
+      simp only [TV.flatten, List.cons_append, List.append_assoc, recFlags_cons, List.singleton_append,
+        List.nil_append]
+      rw [recStep_value stk _ hk]
+      simp only [recValue]
+      rw [h2, recFlags_cons]
+      have : recStep .json (.mapKey :: stk) Body.mapClose = afterValue stk := rfl
+      rw [this, rep_cons]
+      simp only [List.length_cons, List.length_append, List.length_nil]
+      rfl
+  theorem recL : ∀ (vs : List TV), commonL vs = true → PumpL.SBl vs = true → ∀ (stk : List Frame) (rest : List Tok),
+      recFlags .json (.arr :: stk) (TV.flattenList vs ++ rest) =
+        List.replicate (TV.flattenList vs).length Flag.cont ++ recFlags .json (.arr :: stk) rest
+    | [], _, _, stk, rest => by simp [TV.flattenList]
+    | v :: vs, hc, hs, stk, rest => by
+      simp only [commonL, Bool.and_eq_true] at hc
+      simp only [PumpL.SBl, Bool.and_eq_true] at hs
+      have h1 := recV v hc.1 hs.1 (.arr :: stk) (TV.flattenList vs ++ rest) (by intro r h; cases h)
+      have h2 := recL vs hc.2 hs.2 stk rest
+      have hp := flatten_pos v
+      simp only [TV.flattenList, List.append_assoc, List.length_append]
+      rw [h1]
+      simp only [afterFlags, afterValue]
+      rw [h2, rep_cons, rep_app]
+      congr 2
+      omega
+  theorem recE : ∀ (es : List (TV × TV)), commonE es = true → PumpL.SBe es = true →
+      ∀ (stk : List Frame) (rest : List Tok),
+      recFlags .json (.mapKey :: stk) (TV.flattenEntries es ++ rest) =
+        List.replicate (TV.flattenEntries es).length Flag.cont ++ recFlags .json (.mapKey :: stk) rest
+    | [], _, _, stk, rest => by simp [TV.flattenEntries]
+    | (k, v) :: es, hc, hs, stk, rest => by
+      simp only [commonE, Bool.and_eq_true] at hc
+      obtain ⟨⟨hk, hv⟩, hes⟩ := hc
+      simp only [PumpL.SBe, Bool.and_eq_true] at hs
+      have h1 := recV v hv hs.1.2 (.mapVal :: stk) (TV.flattenEntries es ++ rest) (by intro r h; cases h)
+      have h2 := recE es hes hs.2 stk rest
+      have hp := flatten_pos v
+      cases k with
+      | scalar t =>
+        simp only [Bool.and_eq_true] at hk
+        cases hb : t.body <;> rw [hb] at hk <;> simp at hk
+        simp only [TV.flattenEntries, TV.flatten, List.append_assoc, List.singleton_append, List.cons_append,
+          List.nil_append, recFlags_cons, recStep, recKey, hb, keyOk, List.length_cons, List.length_append]
+        simp only [if_true]
+        rw [h1]
+        simp only [afterFlags, afterValue]
+        rw [h2, rep_cons, rep_cons, rep_app]
+        congr 2
+        omega
+      | arr _ _ _ => simp at hk
+      | map _ _ _ => simp at hk
+end
+
+/-- the JSON encoder accepts the tokens of every tree of the common data model, done exactly on the last -/
+theorem json_sink_ok (c : JsonEnc.Cfg) (ff : Nat → Bytes) (v : TV) (hc : common v = true) (hs : PumpL.SB v = true) :
+    PumpL.SinkOk (JsonEnc.step c ff) JsonEnc.init v.flatten := by
+  unfold PumpL.SinkOk
+  rw [PumpL.runOut_fst, C14.json_accepts_exactly]
+  have := recV v hc hs [] [] (by intro r h; cases h)
+  simpa [afterFlags, afterValue] using this
+
 /-- CBOR → JSON: accepted, done on the last token, one item consumed -/
 theorem c2j_accepts (c : JsonEnc.Cfg) (ff : Nat → Bytes) (bs : Bytes) (v : TV) (rest : Bytes) (hb : ∀ x ∈ bs, x < 256)
     (hp : Spec.Cbor.parse false bs = some (v, rest)) (hc : common v = true) :
     let r := Pump.run (Pump.cborSrc false) (JsonEnc.step c ff) (2 * bs.length + 4) CborDec.init (Rd.ofBytes bs) JsonEnc.init []
     r.ok = true ∧ r.rd.data = rest ∧ r.out = (runOut (JsonEnc.step c ff) JsonEnc.init v.flatten).2 := by
-  sorry
+  intro r
+  have href := C04.refine false bs hb
+  simp only [hp] at href
+  obtain ⟨h1, h2, h3⟩ := href
+  have hsink := json_sink_ok c ff v hc (PumpL.parse_SB false bs v rest hp)
+  unfold PumpL.SinkOk at hsink
+  rw [← h1] at hsink
+  obtain ⟨g1, g2, g3⟩ := pump_eq_batch_cbor_src (JsonEnc.step c ff) JsonEnc.init false bs hb h2 hsink
+  refine ⟨g1, ?_, ?_⟩
+  · rw [← h3]; exact g3
+  · rw [← h1]; exact g2
 
 /-- an input error surfaces as a pump error -/
 theorem pump_src_error_cbor {τ : Type} (sink : τ → Tok → EncOut τ) (k0 : τ) (coerce : Bool) (bs : Bytes) (e : Err)
     (hdec : (CborDec.decode coerce (Rd.ofBytes bs)).res = .error e) :
     (Pump.run (Pump.cborSrc coerce) sink (2 * bs.length + 4) CborDec.init (Rd.ofBytes bs) k0 []).ok = false := by
-  sorry
+  apply PumpL.pump_fail
+  have hrun := (PumpL.cbor_run_eq coerce (2 * bs.length + 2) CborDec.init (Rd.ofBytes bs) [] 0 0).2.1
+  have hd : CborDec.decode coerce (Rd.ofBytes bs) =
+      CborDec.run coerce (2 * bs.length + 2) CborDec.init (Rd.ofBytes bs) [] 0 0 := rfl
+  rw [hd] at hdec
+  rw [hdec] at hrun
+  have hind := PumpL.cbor_srcRun_indep coerce (2 * bs.length + 4) (2 * bs.length + 2) CborDec.init bs
+    (by simp [PumpL.cborMu, CborDec.init]) (by simp [PumpL.cborMu, CborDec.init])
+  have e : Rd.ofBytes bs = ⟨bs, none, 0⟩ := rfl
+  rw [e] at hrun ⊢
+  rw [hind, ← hrun]
+  rfl
 
 theorem pump_src_error_json {τ : Type} (sink : τ → Tok → EncOut τ) (k0 : τ) (bs : Bytes) (e : Err)
     (hdec : (JsonDec.decode (Rd.ofBytes bs)).res = .error e) :
     (Pump.run Pump.jsonSrc sink (2 * bs.length + 4) JsonDec.init (Rd.ofBytes bs) k0 []).ok = false := by
-  sorry
+  apply PumpL.pump_fail
+  exact PumpL.json_srcRun_err bs e hdec _
 
 end Refmt.C10
